@@ -13,3 +13,12 @@ add("C09", "reference-model postcondition + metamorphic identities observed on r
 add("C10", "acceptable-set oracle for get_metric + definitional identities for integrate/average/derivative/metric_weighted on observed results",
     "The metric returned must be one of the candidates the statement allows for the random registry (with warning and "
     "broadcastability), and the derived operations must equal their definition in terms of that metric.", "2/C10")
+add("C17", "exhaustive enumeration of small link tables and of all edits of consistent tables against an independent reciprocity predicate; Grid() accept/refuse observed",
+    "All 625 two-face tables and all single (thorough: all double) edits of seven consistent base tables are constructed for "
+    "real and the accept/refuse outcome compared with the predicate; larger tables are sampled.", "2/C17")
+add("C15", "independent scanner/canonicaliser as oracle over exhaustively enumerated small signatures and all single-character corruptions of sampled ones",
+    "from_string/__str__/from_type_hints/equivalent are run on every generated string and compared with a hand-written "
+    "recogniser, printer and first-appearance canonicaliser; bounded sub-languages are enumerated completely.", "2/C15")
+add("C14", "round-trip monitor: independent convention encoders -> Grid(ds) autoparse -> compare with the spec and with the explicitly built Grid",
+    "Random topologies are encoded into COMODO / SGRID attributes as the tables prescribe and must be parsed back exactly; "
+    "operations on the parsed Grid must equal those on the explicit one.", "2/C14")
